@@ -1,4 +1,5 @@
 import SrProofs.StrainBook
+import SrProofs.Bridge
 
 /-!
 # C15 — strain bookkeeping, free expansion and causality hold at every point and time
@@ -251,5 +252,22 @@ example :
 /-- store/restore on a non-symmetric array: the lower triangle is not what is read back -/
 example : restore (store (fun i j => if i.val = 1 ∧ j.val = 0 then (7 : ℝ) else 0)) 1 0 = 0 := by
   simp [restore, store]
+
+/-- **closed_from_C10.** The hypothesis `Step.Closed` used above is not an assumption about the
+code: for every subdivision limit, mode and pattern of failed attempts, a *returning* adaptive
+step (C10's model, `SrModel.Adaptive.run`) has accepted sub-increments whose last step fraction
+is 1 — so the bookkeeping theorems apply to every step the real loop returns. -/
+theorem closed_from_C10 (md : Nat) (hmd : 0 < md) (forced : Bool) (o : Nat → Bool)
+    (tr : List SrModel.Adaptive.Attempt) (tot : SrModel.Adaptive.Attempt → SrModel.StrainBook.Ten ℝ)
+    (Tnp1 : ℝ) (h : SrModel.Adaptive.run md forced o = .ok tr) :
+    (⟨Tnp1, SrModel.Bridge.subsOf md tot tr⟩ : SrModel.StrainBook.Step ℝ).Closed :=
+  SrModel.Bridge.closed_of_returning_step md hmd forced o tr tot Tnp1 h
+
+/-- and the step fractions of the accepted sub-increments never exceed 1 -/
+theorem fractions_from_C10 (md : Nat) (hmd : 0 < md) (forced : Bool) (o : Nat → Bool)
+    (tr : List SrModel.Adaptive.Attempt) (h : SrModel.Adaptive.run md forced o = .ok tr) :
+    ∀ a ∈ SrModel.Adaptive.accepted tr, (a.to_ : ℝ) / (2 : ℝ) ^ md ≤ 1 :=
+  SrModel.Bridge.fractions_le_one md hmd forced o tr h
+
 
 end SrProps.C15
